@@ -141,6 +141,48 @@ SyntaxVisitor::Action Disambiguator::visitMaybeAmbiguousExpression(ExprT* const&
         }
     }
 
+    // Likewise, the ambiguity was parsed as one operand (a cast-expression):
+    // of an operator to its left, `y * (x) - z' being shaped as
+    // `y * ((x) - z)', or of a prefix operator or cast, `- (x) - z' being
+    // shaped as `- ((x) - z)'.
+    if (auto parentExpr = node_P->asBinaryExpression()) {
+        auto binExpr = parentExpr->rightExpr_
+                ? parentExpr->rightExpr_->asBinaryExpression()
+                : nullptr;
+        if (binExpr
+                && binExprsOfAmbigs_.count(binExpr)
+                && precedenceOf(parentExpr->kind()) >= precedenceOf(binExpr->kind())
+                && precedenceOf(binExpr->kind()) > 0) {
+            parentExpr->rightExpr_ = binExpr->leftExpr_;
+            binExpr->leftExpr_ = parentExpr;
+            node_P = binExpr;
+        }
+    }
+    else if (auto parentExpr = node_P->asPrefixUnaryExpression()) {
+        auto binExpr = parentExpr->expr_
+                ? parentExpr->expr_->asBinaryExpression()
+                : nullptr;
+        if (binExpr
+                && binExprsOfAmbigs_.count(binExpr)
+                && precedenceOf(binExpr->kind()) > 0) {
+            parentExpr->expr_ = binExpr->leftExpr_;
+            binExpr->leftExpr_ = parentExpr;
+            node_P = binExpr;
+        }
+    }
+    else if (auto parentExpr = node_P->asCastExpression()) {
+        auto binExpr = parentExpr->expr_
+                ? parentExpr->expr_->asBinaryExpression()
+                : nullptr;
+        if (binExpr
+                && binExprsOfAmbigs_.count(binExpr)
+                && precedenceOf(binExpr->kind()) > 0) {
+            parentExpr->expr_ = binExpr->leftExpr_;
+            binExpr->leftExpr_ = parentExpr;
+            node_P = binExpr;
+        }
+    }
+
     return Action::Skip;
 }
 
